@@ -239,10 +239,11 @@ def step (st : St) : Label → Option St
     if st.bg != .posted then none else some { st with bg := .working }
   | .bgMid flushDone bcast err =>
     if st.bg != .working then none
-    -- no work is done after an error, and none after shutdown -- except that a worker that was in the middle of its work
-    -- when `close` set shutting_down records the error "deleting DB during compaction" (db_impl.c:1137, 1441, 1478);
-    -- after that only `bgFinish` remains
-    else if st.bgError || (st.shuttingDown && (flushDone || !err)) then none
+    -- no work is done after an error.  Shutdown does not stop a job at once: a flush whose MANIFEST write was in flight when
+    -- `close` set shutting_down still installs its result (db_impl.c:1151 tests the flag only before ldb_versions_apply), and a
+    -- compaction records the error "deleting DB during compaction" at its next test (db_impl.c:1441, 1478); either way the
+    -- job then runs into `bgFinish`
+    else if st.bgError then none
     else if flushDone && !st.imm then none
     else
       let st := if flushDone then { st with imm := false } else st
